@@ -478,32 +478,48 @@ def csvCols (ncol nscan : Nat) : Option Table → List (List Rat)
   | none => List.replicate ncol (List.replicate nscan 0)
   | some t => transpose ncol t.rows
 
+/-- `read_datafile_csvs` for one data file: `some none` = csv missing (line blanked); `none` = the
+csv exists but cannot be read (raises) -/
+def readLine (csv : Option CsvFile) : Option (Option Table) :=
+  match csv with
+  | none => some none
+  | some c => (readCsv c.lines).map some
+
+/-- every present line has the shape of the first present one (`data[i, :] = line` raises otherwise) -/
+def shapeOk (nscan ncol : Nat) (t : Option Table) : Bool :=
+  match t with
+  | none => true
+  | some t => decide (t.rows.length = nscan ∧ t.names.length = ncol)
+
+/-- the field names after the optional renaming from the method file -/
+def csvNames? (acqNames : Option (List Name)) (names : List Name) : List Name :=
+  match acqNames with
+  | none => names
+  | some new => renameFields names new
+
 /-- `load_csv`: `acqNames = some names` when `use_acq_for_names` and AcqMethod.xml exists.
 `img[line][column][scan]` without the time column; `times` = the time column (named `Time_[Sec]`). -/
 def loadCsv {α : Type} (m : Meta) (files : List (DataFile α)) (acqNames : Option (List Name))
-    (methods : List Method) : Except Err (Image Rat) := do
-  let lines ← linesOf m false methods
-  let dfs ← orErr .notFound (allSome (lines.map (findFile files)))
-  -- read_datafile_csvs: none = missing csv; a csv that cannot be read raises
-  let tabs ← orErr .other (allSome (dfs.map (fun f =>
-      match f.csv with
-      | none => some none
-      | some c => (readCsv c.lines).map some)))
-  match tabs.filterMap id with
-  | [] => throw .other          -- StopIteration
-  | t0 :: _ =>
-    let nscan := t0.rows.length
-    let ncol := t0.names.length
-    if nscan < 2 then throw .other      -- a single data row gives a 0-d array
-    if !(tabs.all (fun t => match t with
-        | none => true
-        | some t => t.rows.length = nscan ∧ t.names.length = ncol)) then throw .value
-    let cols : List (List (List Rat)) := tabs.map (csvCols ncol nscan)
-    let names := match acqNames with
-      | none => t0.names
-      | some new => renameFields t0.names new
-    if names.head? ≠ some timeName then throw .other   -- other header layouts are not generated
-    pure { names := names.drop 1, img := cols.map (·.drop 1), times := cols.map (·.headD []) }
+    (methods : List Method) : Except Err (Image Rat) :=
+  match linesOf m false methods with
+  | .error e => .error e
+  | .ok lines =>
+    match allSome (lines.map (findFile files)) with
+    | none => .error .notFound
+    | some dfs =>
+      match allSome (dfs.map (fun f => readLine f.csv)) with
+      | none => .error .other
+      | some tabs =>
+        match tabs.filterMap id with
+        | [] => .error .other          -- StopIteration
+        | t0 :: _ =>
+          if t0.rows.length < 2 then .error .other      -- a single data row gives a 0-d array
+          else if !(tabs.all (shapeOk t0.rows.length t0.names.length)) then .error .value
+          else
+            let cols : List (List (List Rat)) := tabs.map (csvCols t0.names.length t0.rows.length)
+            let names := csvNames? acqNames t0.names
+            if names.head? ≠ some timeName then .error .other   -- other header layouts are not generated
+            else .ok { names := names.drop 1, img := cols.map (·.drop 1), times := cols.map (·.headD []) }
 
 /-- specification of one line of the CSV import: column `j+1` of every data row, zeros when the
 line's CSV is missing -/
@@ -514,19 +530,23 @@ def csvLineSpec (ncol nscan : Nat) : Option CsvFile → Option (List (List Rat))
 /-- specification of the CSV import.  `specNames = some names`: the element names of the batch's own
 mass table (used when the method file supplies the names), otherwise the header's names. -/
 def loadCsvSpec {α : Type} (m : Meta) (files : List (DataFile α)) (specNames : Option (List Name))
-    (methods : List Method) : Except Err (Image Rat) := do
-  let lines ← linesOf m true methods
-  let dfs ← orErr .notFound (allSome (lines.map (findFile files)))
-  match dfs.filterMap (·.csv) with
-  | [] => throw .other
-  | c0 :: _ =>
-    let ncol := c0.header.length
-    let nscan := c0.rows.length
-    let cols ← orErr .other (allSome (dfs.map (fun f => csvLineSpec ncol nscan f.csv)))
-    let names := match specNames with
-      | none => (c0.header.drop 1).map validName
-      | some ns => ns
-    pure { names := names, img := cols.map (·.drop 1), times := cols.map (·.headD []) }
+    (methods : List Method) : Except Err (Image Rat) :=
+  match linesOf m true methods with
+  | .error e => .error e
+  | .ok lines =>
+    match allSome (lines.map (findFile files)) with
+    | none => .error .notFound
+    | some dfs =>
+      match dfs.filterMap (·.csv) with
+      | [] => .error .other
+      | c0 :: _ =>
+        match allSome (dfs.map (fun f => csvLineSpec c0.header.length c0.rows.length f.csv)) with
+        | none => .error .other
+        | some cols =>
+          .ok { names := (match specNames with
+                  | none => (c0.header.drop 1).map validName
+                  | some ns => ns),
+                img := cols.map (·.drop 1), times := cols.map (·.headD []) }
 
 /-! ## 8. binary-vs-CSV agreement, method file vs log -/
 
